@@ -83,13 +83,14 @@ func (attrs Attributes) Satisfy(cts Constraints) (ok bool) {
 					ok = true
 					continue
 				} else {
+					// every constraint must hold: one mismatch decides (a bare break would only leave the switch)
 					ok = false
-					break
+					return
 				}
 			} else { //at least 1 constraint not satisfiable, bailing out
 				log.WithField("constraint", constraint.Attribute).Warning("at least 1 constraint not satisfiable (cannot get attribute)")
 				ok = false
-				break
+				return
 			}
 		default:
 			log.WithField("constraint", constraint.Attribute).Warning("unsupported operator, skipping constraint")
